@@ -92,6 +92,13 @@ impl SwiftField for Field37H {
     fn to_swift_string(&self) -> String {
         let negative_indicator = if self.is_negative.is_some() { "N" } else { "" };
         let rate_str = format_swift_amount_min_decimals(self.rate.abs(), 4);
+        // 12d: the padding zeros after the separator are optional, so they are dropped when they
+        // would push the rate over its 12 characters (12345678901, and not 12345678901,0000)
+        let rate_str = if rate_str.len() > 12 {
+            rate_str.trim_end_matches('0').to_string()
+        } else {
+            rate_str
+        };
         format!(
             ":37H:{}{}{}",
             self.rate_indicator, negative_indicator, rate_str
